@@ -162,3 +162,6 @@ func (txn *Txn) VerifReadTs() uint64 { return txn.readTs }
 
 // VerifItemMeta exposes Item.meta.
 func VerifItemMeta(item *Item) byte { return item.meta }
+
+// VerifWBTxn exposes the WriteBatch's current internal transaction (to observe splits).
+func VerifWBTxn(wb *WriteBatch) *Txn { return wb.txn }
